@@ -49,6 +49,7 @@ Rebuild(E, M, r, c, form) == [p \in (1..r) \X (1..c) |->
 VARIABLE q
 Init == CASE Mode = "lists" -> q \in UNION {{<<s, g>> : s \in {1, 9997, 99999900}, g \in [1..(n - 1) -> {1, 2}]} : n \in 1..MaxN}
           [] Mode = "perms" -> q \in UNION {{<<s, g>> : s \in {0, 1000}, g \in {f \in [1..n -> 1..(MaxN + 1)] : \A i, j \in 1..n : i # j => f[i] # f[j]}} : n \in 1..MaxN}
+          [] Mode = "ints" -> q \in (2..9) \X (0..MaxN)
           [] Mode = "dmig" -> q \in UNION {{<<d, M, k>> : M \in Mats(d[1], d[2]), k \in {"dof", "plain", "dof2"}} : d \in Dims}
 Next == UNCHANGED q
 
@@ -66,6 +67,19 @@ ListLaws == Mode = "lists" =>
 DmigLaws == Mode = "dmig" =>
    LET r == q[1][1] c == q[1][2] M == q[2] f == Form(M, r, c, q[3]) IN
    Rebuild(Entries(M, r, c, f), M, r, c, f) = M
+\* ---- integer lists wrapped over continuation lines (wtnasints): the i-th integer of a list that starts in field `start` of the
+\* card's first line stands at <<line, field>>; continuation lines use fields 2..9
+IntPos(start, i) == LET first == 10 - start IN
+   IF i <= first THEN <<1, start + i - 1>> ELSE <<2 + (i - first - 1) \div 8, 2 + ((i - first - 1) % 8)>>
+IntLines(start, n) == IF n = 0 THEN 1 ELSE IntPos(start, n)[1]
+NextCell(p) == IF p[2] = 9 THEN <<p[1] + 1, 2>> ELSE <<p[1], p[2] + 1>>
+IntLaws == Mode = "ints" =>
+   LET start == q[1] n == q[2] IN
+   /\ n > 0 => IntPos(start, 1) = <<1, start>>
+   /\ \A i \in 1..n : IntPos(start, i)[2] \in 2..9
+   /\ \A i \in 1..(n - 1) : IntPos(start, i + 1) = NextCell(IntPos(start, i))        \* no cell skipped, none used twice, order kept
+   /\ IntLines(start, n) = IF n <= 10 - start THEN 1 ELSE 1 + (n - (10 - start) + 7) \div 8
+ExportInts == (Mode = "ints" /\ Export) => PrintT(<<"INTS", q[1], q[2], [i \in 1..q[2] |-> IntPos(q[1], i)], IntLines(q[1], q[2])>>)
 ExportLists == (Mode = "lists" /\ Export) => PrintT(<<"IDS", Ids, Runs(Ids), TableLines(Len(Ids), 4), TableLines(Len(Ids), 2)>>)
 ExportDmig == (Mode = "dmig" /\ Export) =>
    LET r == q[1][1] c == q[1][2] M == q[2] f == Form(M, r, c, q[3]) IN
